@@ -83,14 +83,19 @@ def judge(provides_sel: dict, requires_sel: dict, provides: List[str], requires:
     # mixing semantics among provides ports
     if pmap is not None and len(set(pmap.values())) > 1:
         return REJECT, 'provides: mixes semantics among provides ports', None
+    # whether such a configuration is accepted may be open; what an accepted one means is not:
+    # every exposed port gets the semantics it is named under or covered by
+    mapping = None
+    if pmap is not None and rmap is not None:
+        mapping = dict(pmap)
+        mapping.update(rmap)
     if pv == UNSPECIFIED:
-        return UNSPECIFIED, 'provides: ' + preason, None
+        return UNSPECIFIED, 'provides: ' + preason, mapping
     if rv == UNSPECIFIED:
-        return UNSPECIFIED, 'requires: ' + rreason, None
+        return UNSPECIFIED, 'requires: ' + rreason, mapping
     if _nonempty(provides_sel['sts']) and _nonempty(provides_sel['mts']):
         # both selections given although the effective assignment is uniform (e.g. a set plus
         # 'remaining' with nothing remaining): the statement only forbids actual mixing
-        return UNSPECIFIED, 'provides: both selections non-empty, effective assignment uniform', None
-    mapping = dict(pmap)
-    mapping.update(rmap)
+        return UNSPECIFIED, 'provides: both selections non-empty, effective assignment uniform', \
+            mapping
     return ACCEPT, '', mapping
